@@ -1088,7 +1088,10 @@ func runProv(x *exec, rng *rand.Rand) {
 		os.WriteFile(ring, x.input, 0o644)
 		os.WriteFile(sigFile, pe.prov, 0o644)
 		var s *provenance.Signatory
-		if x.stage("NewFromKeyring", func() (err error) { s, err = provenance.NewFromKeyring(ring, pick(rng, []string{"", "helm", "nobody"})); return }) && s != nil {
+		if x.stage("NewFromKeyring", func() (err error) {
+			s, err = provenance.NewFromKeyring(ring, pick(rng, []string{"", "helm", "nobody"}))
+			return
+		}) && s != nil {
 			x.stage("Verify(mutated keyring)", func() error { _, err := s.Verify(pe.chart, sigFile); return err })
 		}
 		return
